@@ -79,6 +79,11 @@ static void decObs(const unsigned char* bytes, size_t n, uint32_t& v, bool& ok)
   Exact e(bytes, n);
   v = Unicode::fromString((const char*)e.p, n);
   ok = Unicode::isValid((const char*)e.p, n);
+  // the String overloads must agree with the pointer overloads
+  String s((const char*)bytes, n);
+  uint32_t v2 = Unicode::fromString(s);
+  bool ok2 = Unicode::isValid(s);
+  if(v2 != v || ok2 != ok) { printf("FAULT String and pointer overloads of fromString/isValid disagree"); hxEndLine(); exit(3); }
 }
 
 static const char* B64ALPHA = "ABCDEFGHIJKLMNOPQRSTUVWXYZabcdefghijklmnopqrstuvwxyz0123456789+/";
@@ -305,10 +310,52 @@ int main()
       size_t n; unsigned char* d = hxBytes(l.tok[1], n);
       String s((const char*)d, n);
       free(d);
-      if(strcmp(op, "pi32") == 0) printf("pi32 %08lx", (unsigned long)(uint32_t)s.toInt());
-      else if(strcmp(op, "pu32") == 0) printf("pu32 %08lx", (unsigned long)s.toUInt());
-      else if(strcmp(op, "pi64") == 0) printf("pi64 %016llx", (unsigned long long)s.toInt64());
-      else printf("pu64 %016llx", (unsigned long long)s.toUInt64());
+      // member form and static (const char*) form must agree
+      const char* cs = s;
+      if(strcmp(op, "pi32") == 0)
+      {
+        int a = s.toInt(), b = String::toInt(cs);
+        if(a != b) printf("FAULT toInt overloads disagree"); else printf("pi32 %08lx", (unsigned long)(uint32_t)a);
+      }
+      else if(strcmp(op, "pu32") == 0)
+      {
+        uint a = s.toUInt(), b = String::toUInt(cs);
+        if(a != b) printf("FAULT toUInt overloads disagree"); else printf("pu32 %08lx", (unsigned long)a);
+      }
+      else if(strcmp(op, "pi64") == 0)
+      {
+        int64 a = s.toInt64(), b = String::toInt64(cs);
+        if(a != b) printf("FAULT toInt64 overloads disagree"); else printf("pi64 %016llx", (unsigned long long)a);
+      }
+      else
+      {
+        uint64 a = s.toUInt64(), b = String::toUInt64(cs);
+        if(a != b) printf("FAULT toUInt64 overloads disagree"); else printf("pu64 %016llx", (unsigned long long)a);
+      }
+    }
+    else if(hxIs(l, "pd", 1) && validHex(l.tok[1]))
+    {
+      // toDouble: member and static form; observed as the IEEE-754 bit pattern (never as a float text)
+      size_t n; unsigned char* d = hxBytes(l.tok[1], n);
+      String s((const char*)d, n);
+      free(d);
+      double a = s.toDouble(), b = String::toDouble((const char*)s);
+      uint64_t ba, bb;
+      memcpy(&ba, &a, 8); memcpy(&bb, &b, 8);
+      if(ba != bb) printf("FAULT toDouble overloads disagree"); else printf("pd %016llx", (unsigned long long)ba);
+    }
+    else if(hxIs(l, "fd", 1) && strlen(l.tok[1]) == 16)
+    {
+      // fromDouble of the double with the given bit pattern, and toDouble of that text
+      uint64_t v;
+      if(!hexU64(l.tok[1], 16, v)) { printf("bad-op"); hxEndLine(); continue; }
+      double x;
+      memcpy(&x, &v, 8);
+      String t = String::fromDouble(x);
+      double back = t.toDouble();
+      uint64_t bb;
+      memcpy(&bb, &back, 8);
+      printf("fd "); putText(t); printf(" %016llx", (unsigned long long)bb);
     }
     else printf("bad-op");
     hxEndLine();
